@@ -1069,8 +1069,9 @@ class Interp:
                 if not hasattr(cell, 'with_field'):
                     cell.fields[name] = v
                 return v
-            if 'attr_default' in self.spec_funcs and not self.spec_mode and name == '__dict__':
-                return self.spec_funcs['attr_default'](self, obj, name)      # the instance dictionary: opaque under wiring contracts
+            if 'call_default' in self.spec_funcs and not self.spec_mode and name == '__dict__':
+                # the instance dictionary: an opaque object under wiring contracts
+                return VElem(sym.user_func('attr:__dict__', 1)(self.as_elem(obj)))
             raise Unsupported('attribute %s of %s' % (name, cell.cls))
         if isinstance(obj, VRef):
             if obj.cls:
